@@ -266,4 +266,413 @@ theorem discovered_step (s : Svc) (source : Nat) (recs : List Rec) (q : Option N
     · exact h1
   · exact h1
 
+
+theorem nodesToSend_step (s : Svc) (requester : Nat) (ds : List Nat) :
+    Step P o s (s.nodesToSend requester ds).1 := by
+  unfold nodesToSend
+  simp only
+  split
+  · split
+    · exact Step.refl
+    · exact Step.table _ nodesByDistances_localKey nodesByDistances_tinv nodesByDistances_vals
+  · split
+    · exact Step.refl
+    · exact Step.table _ nodesByDistances_localKey nodesByDistances_tinv nodesByDistances_vals
+
+theorem sendNodesResponse_step (s : Svc) (peer : Nat) (addr : Addr) (rid : Bytes) (ds : List Nat) :
+    Step P o s (s.sendNodesResponse peer addr rid ds).1 := by
+  unfold sendNodesResponse
+  exact nodesToSend_step s peer ds
+
+theorem handleRequest_step (s : Svc) (peer : Nat) (addr : Addr) (rid : Bytes) (body : ReqBody) :
+    Step P o s (s.handleRequest peer addr rid body).1 := by
+  cases body with
+  | findNode ds => unfold handleRequest; exact sendNodesResponse_step ..
+  | talk p q => unfold handleRequest; exact Step.refl
+  | ping enrSeq =>
+    unfold handleRequest
+    simp only
+    have he := entry_step (P := P) (o := o) s peer
+    generalize s.entry peer = x at he ⊢
+    obtain ⟨s1, l⟩ := x
+    simp only at he ⊢
+    have key : ∀ tr : Option Rec, Step P o s1 (match tr with
+        | some v =>
+          match contactableAddr s1.cfg.ipMode v with
+          | some a => s1.sendRpcRequest v.id a (.findNode [Consts.ENR_REQUEST_DISTANCE]) none false
+          | none => (s1, [])
+        | none => (s1, [])).1 := by
+      intro tr
+      cases tr with
+      | none => exact Step.refl
+      | some v =>
+        simp only
+        cases contactableAddr s1.cfg.ipMode v with
+        | none => exact Step.refl
+        | some a => exact sendRpcRequest_step ..
+    exact he.trans (key _)
+
+theorem removeActive_step (s : Svc) (id : Nat) : Step P o s (s.removeActive id).1 := by
+  unfold removeActive
+  cases s.active.find? (fun a => a.id == id) with
+  | none => exact Step.refl
+  | some a => exact Step.of_eq rfl rfl rfl
+
+theorem takeNodesResp_step (s : Svc) (id : Nat) : Step P o s (s.takeNodesResp id).1 := by
+  unfold takeNodesResp
+  cases s.nodesResp.find? (fun p => p.1 == id) with
+  | none => exact Step.refl
+  | some a => exact Step.of_eq rfl rfl rfl
+
+theorem ipVote_step (s : Svc) (peer : Nat) : Step P o s (s.ipVote o peer).1 := by
+  unfold ipVote
+  split
+  · exact Step.refl
+  split
+  · exact Step.refl
+  simp only
+  have he := entry_step (P := P) (o := o) s peer
+  have hl : (s.entry peer).1.localRec = s.localRec := rfl
+  generalize s.entry peer = x at he hl ⊢
+  obtain ⟨s1, l⟩ := x
+  simp only at he hl ⊢
+  cases l <;> simp only
+  all_goals
+    split
+    · exact he
+    · cases hn : o.newLocal with
+      | none => exact he
+      | some ra =>
+        obtain ⟨r, a⟩ := ra
+        simp only
+        refine he.trans ⟨rfl, rfl, id, id, ?_⟩
+        intro ho
+        exact ho r a hn
+
+theorem handleResponse_step (s : Svc) (peer : Nat) (addr : Addr) (id : Nat) (body : RespBody)
+    (hupd : Upd s.cfg.ipMode P) : Step P o s (s.handleResponse o peer addr id body).1 := by
+  unfold handleResponse
+  have h0 := removeActive_step (P := P) (o := o) s id
+  generalize s.removeActive id = x at h0 ⊢
+  obtain ⟨s0, oreq⟩ := x
+  cases oreq with
+  | none => exact Step.refl
+  | some req =>
+    simp only at h0 ⊢
+    split
+    · exact h0
+    split
+    · exact h0
+    cases body with
+    | talk resp =>
+      simp only
+      split <;> exact h0
+    | nodes total recs =>
+      simp only
+      split
+      · exact h0
+      have h1 : Step P o s0 (if total > 1 then s0.takeNodesResp id else (s0, none)).1 := by
+        split
+        · exact takeNodesResp_step ..
+        · exact Step.refl
+      generalize (if total > 1 then s0.takeNodesResp id else (s0, none)) = y at h1 ⊢
+      obtain ⟨s1, cur⟩ := y
+      simp only at h1 ⊢
+      split
+      · exact (h0.trans h1).trans (Step.of_eq rfl rfl rfl)
+      · have h2 := takeNodesResp_step (P := P) (o := o) s1 id
+        have h12 := (h0.trans h1).trans h2
+        have hupd' : Upd (s1.takeNodesResp id).1.cfg.ipMode P := by rw [h12.cfg]; exact hupd
+        exact h12.trans (discovered_step _ _ _ _ hupd')
+    | pong enrSeq observed =>
+      simp only
+      split
+      · exact h0
+      have h1 := ipVote_step (P := P) (o := o) s0 peer
+      generalize s0.ipVote o peer = y at h1 ⊢
+      obtain ⟨s1, o1⟩ := y
+      have h2 := findEnr_step (P := P) (o := o) s1 peer
+      generalize s1.findEnr peer = z at h2 ⊢
+      obtain ⟨s2, known⟩ := z
+      simp only at h1 h2 ⊢
+      have h012 := (h0.trans h1).trans h2
+      cases known with
+      | none => exact h012
+      | some r =>
+        simp only
+        have h3 : Step P o s2 (if r.seq < enrSeq then
+            s2.sendRpcRequest req.peer req.addr (.findNode [Consts.ENR_REQUEST_DISTANCE]) none false
+            else (s2, [])).1 := by
+          split
+          · exact sendRpcRequest_step ..
+          · exact Step.refl
+        generalize (if r.seq < enrSeq then
+            s2.sendRpcRequest req.peer req.addr (.findNode [Consts.ENR_REQUEST_DISTANCE]) none false
+            else (s2, [])) = w at h3 ⊢
+        obtain ⟨s3, o2⟩ := w
+        simp only at h3 ⊢
+        split
+        · exact (h012.trans h3).trans
+            (connectionUpdated_step s3 peer .pongReceived (fun r inc e => by cases e))
+        · exact h012.trans h3
+
+theorem rpcFailure_step (s : Svc) (id : Nat) (hupd : Upd s.cfg.ipMode P) :
+    Step P o s (s.rpcFailure o id).1 := by
+  unfold rpcFailure
+  have h0 := removeActive_step (P := P) (o := o) s id
+  generalize s.removeActive id = x at h0 ⊢
+  obtain ⟨s0, oreq⟩ := x
+  cases oreq with
+  | none => exact Step.refl
+  | some req =>
+    simp only at h0 ⊢
+    split
+    · exact h0
+    refine (h0.trans ?_).trans
+      (connectionUpdated_step _ req.peer .disconnected (fun r inc e => by cases e))
+    split
+    · have h2 := takeNodesResp_step (P := P) (o := o) s0 id
+      generalize s0.takeNodesResp id = y at h2 ⊢
+      obtain ⟨s1, onr⟩ := y
+      simp only at h2
+      cases onr with
+      | none => exact h2
+      | some nr =>
+        simp only
+        split
+        · have hupd' : Upd s1.cfg.ipMode P := by rw [h2.cfg, h0.cfg]; exact hupd
+          exact h2.trans (discovered_step _ _ _ _ hupd')
+        · exact h2
+    · exact Step.refl
+
+theorem unverifiable_step (s : Svc) (id : Nat) : Step P o s (s.unverifiable id).1 := by
+  unfold unverifiable
+  exact Step.table _ tremove_localKey remove_tinv tremove_vals
+
+theorem whoAreYou_step (s : Svc) (peer : Nat) (addr : Addr) : Step P o s (s.whoAreYou peer addr).1 := by
+  unfold whoAreYou
+  exact findEnr_step s peer
+
+theorem addEnr_step (s : Svc) (r : Rec)
+    (hv : contactable s.cfg.ipMode r = true → r.passesFilter = true → r.id ≠ s.table.localKey → P r.id r) :
+    Step P o s (s.addEnr r).1 := by
+  unfold addEnr
+  by_cases hc : contactable s.cfg.ipMode r = true
+  · by_cases hf : r.passesFilter = true
+    · rw [if_neg (by simp [hc]), if_neg (by simp [hf])]
+      exact Step.table _ insertOrUpdate_localKey insertOrUpdate_tinv
+        (fun h => insertOrUpdate_vals h (hv hc hf))
+    · rw [if_neg (by simp [hc]), if_pos (by simp [hf])]
+      exact Step.refl
+  · rw [if_pos (by simp [hc])]
+    exact Step.refl
+
+theorem removeNode_step (s : Svc) (id : Nat) : Step P o s (s.removeNode id).1 := by
+  unfold removeNode
+  exact Step.table _ tremove_localKey remove_tinv tremove_vals
+
+theorem startQuery_step (s : Svc) (target : Nat) : Step P o s (s.startQuery target) := by
+  unfold startQuery
+  have h1 : Step P o s { s with table := (s.table.closest s.cfg.kb s.now target).1 } :=
+    Step.table _ closest_localKey closest_tinv closest_vals
+  simp only
+  split
+  · exact h1
+  · exact h1.trans (Step.of_eq rfl rfl rfl)
+
+theorem sendRpcQuery_step (s : Svc) (peer : Nat) : Step P o s (s.sendRpcQuery peer).1 := by
+  unfold sendRpcQuery
+  cases s.query with
+  | none => exact Step.refl
+  | some q =>
+    simp only
+    have h2 := findEnr_step (P := P) (o := o) s peer
+    generalize s.findEnr peer = z at h2 ⊢
+    obtain ⟨s2, known⟩ := z
+    simp only at h2 ⊢
+    cases known with
+    | none => exact h2
+    | some r =>
+      simp only
+      cases contactableAddr s2.cfg.ipMode r with
+      | none => exact h2
+      | some a => exact h2.trans (sendRpcRequest_step ..)
+
+/-- The record an admitting input (established session, explicit add) is about. -/
+def admRec : Svc.Input → Option Rec
+  | .established r _ _ => some r
+  | .addEnr r => some r
+  | _ => none
+
+/-- Every service step is a `Step`, for every `P` that holds of the record an admitting input
+carries (if it is contactable, passes the filter and is not the local node) and is closed under
+updates by newer admissible records. -/
+theorem step_step (s : Svc) (i : Svc.Input)
+    (hadm : ∀ r, admRec i = some r → contactable s.cfg.ipMode r = true → r.passesFilter = true →
+      r.id ≠ s.table.localKey → P r.id r)
+    (hupd : Upd s.cfg.ipMode P) : Step P o s (s.step o i).1 := by
+  cases i with
+  | established r addr incoming =>
+    unfold step; exact injectSessionEstablished_step s r addr incoming (hadm r rfl)
+  | request peer addr rid body => unfold step; exact handleRequest_step ..
+  | response peer addr id body => unfold step; exact handleResponse_step _ _ _ _ _ hupd
+  | requestFailed id => unfold step; exact rpcFailure_step _ _ hupd
+  | unverifiable id => unfold step; exact unverifiable_step ..
+  | whoAreYou peer addr => unfold step; exact whoAreYou_step ..
+  | addEnr r => unfold step; exact addEnr_step s r (hadm r rfl)
+  | removeNode id => unfold step; exact removeNode_step ..
+  | apiPing r => unfold step; exact sendPing_step ..
+  | apiFindNode r ds =>
+    unfold step
+    simp only
+    cases contactableAddr s.cfg.ipMode r with
+    | none => exact Step.refl
+    | some a => exact sendRpcRequest_step ..
+  | apiTalk r p q =>
+    unfold step
+    simp only
+    cases contactableAddr s.cfg.ipMode r with
+    | none => exact Step.refl
+    | some a => exact sendRpcRequest_step ..
+  | startQuery target => unfold step; exact startQuery_step ..
+  | queryEmit peer => unfold step; exact sendRpcQuery_step ..
+  | queryFinished => unfold step; exact Step.of_eq rfl rfl rfl
+
+
+/-- The value stored or pending under `key` (what `Entry::value()` would read). -/
+def lookupVal (t : Table Rec) (key : Nat) : Option Rec :=
+  match lookup t key with
+  | .present v _ => some v
+  | .pending v _ => some v
+  | _ => none
+
+theorem lookupVal_hasPair {t : Table Rec} {k : Nat} {v : Rec} (h : lookupVal t k = some v) :
+    HasPair t k v := by
+  unfold lookupVal at h
+  cases hl : lookup t k with
+  | present w st => rw [hl] at h; cases h; exact lookup_present hl
+  | pending w st => rw [hl] at h; cases h; exact lookup_pending hl
+  | absent => rw [hl] at h; cases h
+  | self => rw [hl] at h; cases h
+
+theorem eq_of_nodup_keys {l : List (Node Rec)} (h : (l.map (·.key)).Nodup) {a b : Node Rec}
+    (ha : a ∈ l) (hb : b ∈ l) (e : a.key = b.key) : a = b := by
+  induction l with
+  | nil => cases ha
+  | cons x xs ih =>
+    simp only [List.map_cons, List.nodup_cons, List.mem_map, not_exists, not_and] at h
+    rcases List.mem_cons.1 ha with rfl | ha' <;> rcases List.mem_cons.1 hb with rfl | hb'
+    · rfl
+    · exact absurd e.symm (h.1 b hb')
+    · exact absurd e (h.1 a ha')
+    · exact ih h.2 ha' hb'
+
+/-- Under the table invariant a key occurs once, so a (key, value) of the table is what a lookup
+of the key finds. -/
+theorem hasPair_lookupVal {c : KB.Cfg Rec} {t : Table Rec} (ht : TInv c t) {k : Nat} {v : Rec}
+    (hp : HasPair t k v) : lookupVal t k = some v := by
+  obtain ⟨b, hb, h⟩ := hp
+  obtain ⟨j, hj, rfl⟩ := List.mem_iff_getElem.1 hb
+  rw [← bucket_eq_getElem t j hj] at h
+  have hj' : j < 256 := by rw [← ht.nBuckets]; exact hj
+  have hbinv := ht.buckets j hj'
+  unfold lookupVal lookup
+  rcases h with ⟨n, hn, hk, hv⟩ | ⟨p, hp, hk, hv⟩
+  · have hidx := ht.placed j hj' n hn
+    rw [hk] at hidx
+    rw [hidx]
+    simp only
+    cases hf : (t.bucket j).nodes.find? (fun n => n.key == k) with
+    | none =>
+      have := List.find?_eq_none.1 hf n hn
+      simp [hk] at this
+    | some n' =>
+      have hn' := List.mem_of_find?_eq_some hf
+      have hk' : n'.key = k := by
+        have := List.find?_some hf
+        exact beq_iff_eq.1 this
+      have : n' = n := eq_of_nodup_keys hbinv.keysNodup hn' hn (hk'.trans hk.symm)
+      simp only [this, hv]
+  · have hidx := ht.placedPending j hj' p hp
+    rw [hk] at hidx
+    rw [hidx]
+    simp only
+    have hfresh := hbinv.pendingFresh p hp
+    cases hf : (t.bucket j).nodes.find? (fun n => n.key == k) with
+    | some n' =>
+      have hn' := List.mem_of_find?_eq_some hf
+      have hk' : n'.key = k := by
+        have := List.find?_some hf
+        exact beq_iff_eq.1 this
+      exact absurd (List.mem_map.2 ⟨n', hn', hk'.trans hk.symm⟩) hfresh
+    | none =>
+      simp only [hp]
+      rw [if_pos (by simp [hk])]
+      simp only [hv]
+
+/-- **Admission.**  A key that is new in the table after a step is the id of the record carried by
+an admitting input, and that record is contactable and passes the table filter. -/
+theorem step_new_key (s : Svc) (o : Oracle) (i : Svc.Input) (k : Nat)
+    (hnew : k ∈ (s.step o i).1.table.allKeys) (hold : k ∉ s.table.allKeys) :
+    ∃ r, admRec i = some r ∧ r.id = k ∧ contactable s.cfg.ipMode r = true ∧ r.passesFilter = true := by
+  let P : Nat → Rec → Prop := fun k' _ => k' ∈ s.table.allKeys ∨
+    ∃ r, admRec i = some r ∧ r.id = k' ∧ contactable s.cfg.ipMode r = true ∧ r.passesFilter = true
+  have h0 : TVals P s.table := (tvals_hasPair s.table).mono (fun k' v h => Or.inl (hasPair_key_mem h))
+  have hs : Step P o s (s.step o i).1 :=
+    step_step s i (fun r hr hc hf _ => Or.inr ⟨r, hr, rfl, hc, hf⟩)
+      (fun k' v r h _ _ _ _ => h)
+  obtain ⟨v, hv⟩ := mem_allKeys_hasPair hnew
+  rcases (hs.vals h0).of_hasPair hv with h | h
+  · exact absurd h hold
+  · exact h
+
+/-- **Update rule.**  In a step that carries no admitted record a value changes only to a record of
+the same id with a strictly higher sequence number that is contactable and passes the filter. -/
+theorem step_update (s : Svc) (o : Oracle) (i : Svc.Input) (ht : TInv s.cfg.kb s.table)
+    (hnet : admRec i = none) (k : Nat) (v v' : Rec) (h1 : lookupVal s.table k = some v)
+    (h2 : lookupVal (s.step o i).1.table k = some v') :
+    v' = v ∨ (v'.id = k ∧ v.seq < v'.seq ∧ contactable s.cfg.ipMode v' = true ∧
+      v'.passesFilter = true) := by
+  let P : Nat → Rec → Prop := fun k' w => ∃ v0, HasPair s.table k' v0 ∧
+    (w = v0 ∨ (w.id = k' ∧ v0.seq < w.seq ∧ contactable s.cfg.ipMode w = true ∧ w.passesFilter = true))
+  have h0 : TVals P s.table := (tvals_hasPair s.table).mono (fun k' w h => ⟨w, h, Or.inl rfl⟩)
+  have hs : Step P o s (s.step o i).1 := by
+    refine step_step s i (fun r hr => by rw [hnet] at hr; cases hr) ?_
+    intro k' w r ⟨v0, hp, hw⟩ hid hlt hc hf
+    refine ⟨v0, hp, Or.inr ⟨hid, ?_, hc, hf⟩⟩
+    rcases hw with rfl | ⟨_, hlt0, _⟩
+    · exact hlt
+    · exact Nat.lt_trans hlt0 hlt
+  obtain ⟨v0, hp, hw⟩ := (hs.vals h0).of_hasPair (lookupVal_hasPair h2)
+  have : v0 = v := by
+    have := hasPair_lookupVal ht hp
+    rw [h1] at this; cases this; rfl
+  subst this
+  exact hw
+
+/-- The same on one iteration of the `discovered` loop. -/
+theorem discoveredOne_update (s : Svc) (source : Nat) (r : Rec) (ht : TInv s.cfg.kb s.table)
+    (k : Nat) (v v' : Rec) (h1 : lookupVal s.table k = some v)
+    (h2 : lookupVal (s.discoveredOne source r).1.table k = some v') :
+    v' = v ∨ (v' = r ∧ r.id = k ∧ v.seq < r.seq ∧ contactable s.cfg.ipMode r = true ∧
+      r.passesFilter = true) := by
+  let P : Nat → Rec → Prop := fun k' w => HasPair s.table k' w ∨
+    (w = r ∧ ∃ v0, HasPair s.table k' v0 ∧ r.id = k' ∧ v0.seq < r.seq ∧
+      contactable s.cfg.ipMode r = true ∧ r.passesFilter = true)
+  have h0 : TVals P s.table := (tvals_hasPair s.table).mono (fun k' w h => Or.inl h)
+  have hs : Step P ({} : Oracle) s (s.discoveredOne source r).1 := by
+    refine discoveredOne_step s source r ?_
+    intro w hw hlt hc hf
+    rcases hw with hw | ⟨rfl, _⟩
+    · exact Or.inr ⟨rfl, w, hw, rfl, hlt, hc, hf⟩
+    · exact absurd hlt (Nat.lt_irrefl _)
+  have huniq : ∀ v0, HasPair s.table k v0 → v0 = v := by
+    intro v0 hp
+    have := hasPair_lookupVal ht hp
+    rw [h1] at this; cases this; rfl
+  rcases (hs.vals h0).of_hasPair (lookupVal_hasPair h2) with hp | ⟨rfl, v0, hp, hid, hlt, hc, hf⟩
+  · exact Or.inl (huniq _ hp)
+  · rw [huniq v0 hp] at hlt
+    exact Or.inr ⟨rfl, hid, hlt, hc, hf⟩
+
 end Discv5.Svc
